@@ -105,6 +105,10 @@ def update_param_state_dict_object(
 ) -> None:
     for k, v in current_param_state_dict.items():
         if k not in param_state_dict_to_load:
+            if not flatten(extract_state_dict_content({k: v})):
+                # Nothing is saved for an object without any leaf (e.g. the Kronecker factors of a block
+                # whose dimensions are all ignored), so there is nothing to load for it either.
+                continue
             if enable_missing_key_check:
                 raise KeyError(f"Key {k} not found in state dict to load.")
             else:
